@@ -117,12 +117,14 @@ Theorem c12_body_empty_inert :
 Proof. exact @body_empty_inert. Qed.
 
 (* exactly when Status::into_http panics for a well-formed status: iff the header map would hold
-   more than 24576 names *)
+   more than 24576 names - those of the finished map plus the grpc-status-details-bin that a
+   status without details removes at the very end ([removed_names]: 1 when the status has no
+   details and its metadata has an entry of that name, else 0; fix ed827503) *)
 Theorem c12_status_into_http_exact :
   forall st,
   well_formed st ->
   exists h, add_header st ct_only = Some h /\
-    status_into_http st = if HEADER_MAP_MAX_NAMES <? names_count h then Panic else Val h.
+    status_into_http st = if HEADER_MAP_MAX_NAMES <? names_count h + removed_names st then Panic else Val h.
 Proof. exact @status_into_http_exact. Qed.
 
 (* ... in which case every poll of the rejected call's future panics (explicit outcome) *)
@@ -149,7 +151,7 @@ Theorem c12_reject_vetoes :
     hm_get_all h hdr_grpc_status = [cv] /\
     hm_get_all h hdr_grpc_message = opt_list (msg_value st) /\
     forall k, hm_get_all h k =
-      if set_by hdr_grpc_status_details (details_value st) k then opt_list (details_value st)
+      if bytes_eqb hdr_grpc_status_details k then opt_list (details_value st)
       else if set_by hdr_grpc_message (msg_value st) k then opt_list (msg_value st)
       else if bytes_eqb hdr_grpc_status k then [cv]
       else match (if is_reserved k then [] else hm_get_all (st_md st) k) with
@@ -158,31 +160,43 @@ Theorem c12_reject_vetoes :
            end.
 Proof. exact @reject_vetoes. Qed.
 
-(* the caller reading those headers recovers precisely that status.  Further premises: the
-   message is UTF-8 (always, for a Rust String) and the status metadata has no user entry under
-   the unreserved protocol name grpc-status-details-bin.  The recovered metadata is the status
-   metadata minus the six reserved names plus the content-type tonic wrote *)
+(* the caller reading those headers recovers precisely that status.  Further premise: the
+   message is UTF-8 (always, for a Rust String).  The status metadata is ARBITRARY: since fix
+   ed827503 (finding F-C04e) a user entry under the unreserved protocol name
+   grpc-status-details-bin neither reaches the wire nor is read as the details (the former premise
+   (iv) "no such entry" is gone from code, message and details; it only decides whether the
+   metadata conjunct loses that one entry: c12_metadata_whole).  The recovered metadata is the
+   status metadata minus the six reserved names and minus what was filed under
+   grpc-status-details-bin (the reader strips that name), plus the content-type tonic wrote *)
 Theorem c12_reject_status_recovered :
   forall (IS SS E B Err Fut P RB : Type) (f : interceptor IS E) (inner : svc_impl SS (http_request E B) Err Fut) (fp : fut_impl Fut (Err + (P * RB))) is ss req st is',
   f is (mkReq (from_headers (rq_headers req)) (rq_ext req) tt) = (inr st, is') ->
   well_formed st -> N.of_nat (length (st_md st)) + 4 <= HEADER_MAP_MAX_NAMES ->
   utf8_valid (st_msg st) = true ->
-  hm_get_all (st_md st) hdr_grpc_status_details = [] ->
   exists h st',
     intercepted_call f inner (is, ss) req = (KStatus (Some st), (is', ss)) /\
     rf_run fp (KStatus (Some st)) 1 = [Val (PReady (inr (HStatus HTTP_200 HTTP_11 h, RbEmpty)))] /\
     from_header_map h = Some st' /\
     st_code st' = st_code st /\ st_msg st' = st_msg st /\ st_details st' = st_details st /\
     forall k, hm_get_all (st_md st') k =
-      if bytes_eqb hdr_content_type k then [val_app_grpc] else hm_get_all (sanitize (st_md st)) k.
+      if bytes_eqb hdr_content_type k then [val_app_grpc]
+      else if bytes_eqb k hdr_grpc_status_details then []
+      else hm_get_all (sanitize (st_md st)) k.
 Proof. exact @reject_status_recovered. Qed.
 
-(* Status -> headers -> Status on top of any header map without status headers *)
+(* with the former premise (iv) the metadata conjunct is the whole sanitised metadata *)
+Theorem c12_metadata_whole :
+  forall md, hm_get_all md hdr_grpc_status_details = [] ->
+  forall k, (if bytes_eqb k hdr_grpc_status_details then [] else hm_get_all (sanitize md) k)
+            = hm_get_all (sanitize md) k.
+Proof. exact metadata_whole. Qed.
+
+(* Status -> headers -> Status on top of any header map without a grpc-message of its own, for
+   every status metadata and whatever the map holds under grpc-status-details-bin *)
 Theorem c12_status_roundtrip_on :
   forall st m0,
   well_formed st -> utf8_valid (st_msg st) = true ->
-  hm_get_all (st_md st) hdr_grpc_status_details = [] ->
-  hm_get_all m0 hdr_grpc_message = [] -> hm_get_all m0 hdr_grpc_status_details = [] ->
+  hm_get_all m0 hdr_grpc_message = [] ->
   exists m st',
     add_header st m0 = Some m /\ from_header_map m = Some st' /\
     st_code st' = st_code st /\ st_msg st' = st_msg st /\ st_details st' = st_details st /\
@@ -227,8 +241,15 @@ Proof. repeat split; try reflexivity. repeat constructor; vm_compute; discrimina
 Example c12_example_reject_premises :
   interceptor_of ex_acts 1 (mkReq (from_headers (rq_headers ex_req)) (rq_ext ex_req) tt) = (inr ex_status, 2) /\
   well_formed ex_status /\ N.of_nat (length (st_md ex_status)) + 4 <= HEADER_MAP_MAX_NAMES /\
-  utf8_valid (st_msg ex_status) = true /\ hm_get_all (st_md ex_status) hdr_grpc_status_details = [].
+  utf8_valid (st_msg ex_status) = true.
 Proof. repeat split; try reflexivity. vm_compute. discriminate. Qed.
+(* the shape of F-C04e through the reject path, evaluated: no details, a user entry
+   grpc-status-details-bin = "AQ": Status::into_http does not carry it *)
+Example c12_example_f_c04e :
+  exists h, status_into_http (mkStatus 7 [110] [] [(hdr_grpc_status_details, [65; 81]); ([120; 45; 97], [49])]) = Val h /\
+    hm_get_all h hdr_grpc_status_details = [] /\ hm_get_all h [120; 45; 97] = [[49]] /\
+    option_map st_details (from_header_map h) = Some [].
+Proof. eexists. split; [vm_compute; reflexivity|]. vm_compute. repeat split; reflexivity. Qed.
 
 (* the Panic outcome is reachable: 24574 metadata names and a message make 24577 header names *)
 Example c12_example_over_capacity :
